@@ -121,10 +121,10 @@ def main(tier):
                        'text length fixed per job (every length 0..N decided separately); text after useHexEscapes is printable ASCII (lemma 1), which licenses byte = rune in the regexp oracle',
                        'rassemble.Join / regexp/syntax are not encoded; "parses as RE2" is decided on the translation-validation family of C01, not here',
                        'non-ASCII (2..4 byte UTF-8) input to useHexEscapes is outside this bound']
-    deep = 4 if tier == 'quick' else 7
-    jobs = lemma_jobs(N, exclude, only, heavyN=heavy, deep=deep, hexN=7 if tier == 'quick' else 9)
+    deep = 3 if tier == 'quick' else 7
+    jobs = lemma_jobs(N, exclude, only, heavyN=heavy, deep=deep, hexN=6 if tier == 'quick' else 9)
     jobs.append(('regex/operators.VerifC02FlagsPrefix', dict(unwind=12, hooks=dict(HOOKS), timeout_ms=60000)))
-    rs, viol = ck.run('pass-lemmas', jobs, bounds={'text_len': '0..%d over all printable ASCII (flag-group lemma 0..%d, useHexEscapes 0..%d over all ASCII), %d..%d over the representative alphabet' % (N, heavy, 7 if tier == 'quick' else 9, N + 1, N + deep), 'flag_sets': 'all subsets of {i,s}, all map iteration orders'})
+    rs, viol = ck.run('pass-lemmas', jobs, bounds={'text_len': '0..%d over all printable ASCII (flag-group lemma 0..%d, useHexEscapes 0..%d over all ASCII), %d..%d over the representative alphabet' % (N, heavy, 6 if tier == 'quick' else 9, N + 1, N + deep), 'flag_sets': 'all subsets of {i,s}, all map iteration orders'})
     ck.triage(viol)
     sj, sb = shaped_jobs(tier, exclude, only)
     ck.assumptions.append('flag-group lemma, deeper jobs: text with a skeleton (free text, opener, free text, optional ")", free text) over a representative alphabet: every byte comparison in the passes and predicates is against a constant of that alphabet, other printable bytes are interchangeable')
